@@ -37,8 +37,11 @@ def run_one(tape, opts):
     c.kinds = tuple(k for k in c.kinds if k != "user")
     c.details = tape.chance("config", 1, 2, "details")
     flavour = tape.choice("config", ("extended", "testtools"), "flavour")
+    runner = lc.draw_runner(tape)
+    if runner != "plain":
+        c.skip_decorators = False     # what @skip does to setUp/tearDown under the Twisted runners is not in any property
     prog = gen_program(tape, c)
-    sim = lc.simulate(prog, flavour)
+    sim = lc.simulate(prog, flavour, runner=runner)
     rr = sim.runs[0]
     lc.oracle_matchers(sim, rr, out)
     m = sim.model
@@ -51,6 +54,7 @@ def run_one(tape, opts):
     out.steps = len(rr.exec_log)
     out.sim_time = float(out.steps)
     out.hhash = lc.history_hash(sim)
+    out.probe("runner:" + runner)
     if opts.get("want_sample"):
         out.sample = lc.sample_of(sim)
     return out
